@@ -4,6 +4,8 @@
 //!   p2  two use::batch hooks + one use::snapshot hook + a slice counter (use::state); every
 //!       hook reports separately, tagged with the slice counter
 //!   p3  use::batch + use::state_null (stream carried over): per slice everything seen so far
+//!   p0  NEGATIVE CONTROL: p1 whose body forgets to assign the new total to the state -- the
+//!       check requires TLC to flag "slice-state-not-carried-over" on its recorded runs
 pub mod sim {
     use hydro_lang::live_collections::stream::{ExactlyOnce, TotalOrder};
     use hydro_lang::prelude::*;
@@ -35,7 +37,7 @@ pub mod sim {
         pub out: SimReceiver<Vec<u32>, TotalOrder, ExactlyOnce>,
     }
 
-    pub fn build<'a>(flow: &mut FlowBuilder<'a>) -> (P1, P2, P3) {
+    pub fn build<'a>(flow: &mut FlowBuilder<'a>) -> (P1, P2, P3, P1) {
         let node = flow.process::<()>();
 
         let (input, stream) = node.sim_input::<u32, TotalOrder, ExactlyOnce>();
@@ -83,6 +85,19 @@ pub mod sim {
         };
         let p3 = P3 { input, out: out.sim_output() };
 
-        (p1, p2, p3)
+        let (input, stream) = node.sim_input::<u32, TotalOrder, ExactlyOnce>();
+        let out = sliced! {
+            let batch = use::batch(stream, nondet!(/** harness: any batching */));
+            let mut total = use::state(|l| l.singleton(q!(0u32)));
+
+            let items = batch.clone().fold(q!(|| Vec::<u32>::new()), q!(|acc, x| acc.push(x)));
+            let before = total.clone();
+            let after = total.clone().zip(batch.count()).map(q!(|(old, add)| old + add as u32));
+            // (the assignment `total = after.clone();` is missing)
+            items.zip(before).zip(after).map(q!(|((i, b), a)| (i, b, a))).into_stream()
+        };
+        let p0 = P1 { input, out: out.sim_output() };
+
+        (p1, p2, p3, p0)
     }
 }
